@@ -237,6 +237,13 @@ _add('C19', [('/archiver', 'CopyFile'), ('/archiver', 'ExtractTar')])
 for _p in ('C12', 'C09', 'C07', 'C10'):
     _add(_p, [('/bsdiff/lrufile', '(*lruFile).Reset')])
 
+_add('C15', [('/taskgroup', 'Do'), ('/taskgroup', 'Do$1')])
+_add('C19', [('/archiver', 'ExtractZip$7$1')])
+for _p in ('C13', 'C10', 'C01', 'C07'):
+    _add(_p, [('/wire', '(*ReadContext).ExpectMagic'), ('/wire', '(*WriteContext).WriteMagic'), ('/wire', '(*WriteContext).Close')])
+for _p in ('C16', 'C05', 'C06'):
+    _add(_p, [('/pwr', '(*ValidatorContext).validate')])
+
 # properties with a registered check
 CLAIMED = {'C02', 'C03', 'C15', 'C19', 'C18', 'C04', 'C09', 'C17', 'C11', 'C08', 'C01', 'C10', 'C12', 'C07', 'C14', 'C13', 'C05', 'C16', 'C06'}
 # reasons for properties not claimed (kept current)
